@@ -296,19 +296,6 @@ func Child(args []string) int {
 		return 2
 	}
 	from, _ := strconv.Atoi(args[3])
-	confirm := len(args) > 4 && args[4] == "confirm"
-	if confirm {
-		runtime.MemProfileRate = 1
-	}
-	if !raceEnabled {
-		lim := uint64(2 << 30)
-		if s := os.Getenv("VERIF_C14_AS_LIMIT_MB"); s != "" {
-			if v, err := strconv.ParseUint(s, 10, 64); err == nil {
-				lim = v << 20
-			}
-		}
-		syscall.Setrlimit(syscall.RLIMIT_AS, &syscall.Rlimit{Cur: lim, Max: lim})
-	}
 	var ins []input
 	var err error
 	if strings.HasPrefix(args[1], "hex:") {
@@ -332,6 +319,25 @@ func Child(args []string) int {
 		if err := t.setup(); err != nil {
 			fmt.Fprintf(os.Stderr, "setup of %s failed: %v\n", t.name, err)
 			return 2
+		}
+	}
+	// warm-up: a restarted child first repeats the chunk's valid artefact (not recorded) so that lazy
+	// initialisation is never charged to a hostile input
+	if from > 0 && len(ins) > 0 {
+		runOne(t, ins[0].data)
+	}
+	if !raceEnabled {
+		// address-space limit = what the process maps now + head-room: allocations far beyond the allocation
+		// bound fail at once (fatal "out of memory", diagnosed by the parent) instead of being touched page by page
+		head := uint64(256 << 20)
+		if s := os.Getenv("VERIF_C14_AS_HEADROOM_MB"); s != "" {
+			if v, err := strconv.ParseUint(s, 10, 64); err == nil {
+				head = v << 20
+			}
+		}
+		if cur := vmSize(); cur > 0 {
+			lim := cur + head
+			syscall.Setrlimit(syscall.RLIMIT_AS, &syscall.Rlimit{Cur: lim, Max: lim})
 		}
 	}
 	// CPU watchdog: decides on CPU time of the process, never on wall-clock time
@@ -405,9 +411,10 @@ func Child(args []string) int {
 		}
 		line = append(line, '\n')
 		jf.Write(line)
-		if confirm && i > from {
-			site, bytes := biggestAllocSite()
-			fmt.Fprintf(jf, "A %d %d %s\n", i, bytes, site)
+		if res.alloc > allocLimit(len(ins[i].data)) && res.pan == nil {
+			// repeat the call once between two memory-profile snapshots: confirms the measurement and names the site
+			alloc2, site := attributeAlloc(t, ins[i].data)
+			fmt.Fprintf(jf, "A %d %d %s\n", i, alloc2, site)
 		}
 	}
 	jf.Write([]byte("E\n"))
@@ -415,36 +422,74 @@ func Child(args []string) int {
 	return 0
 }
 
-// biggestAllocSite returns the innermost Acra frame of the heaviest allocation stack of the memory profile
-// (confirm mode only: MemProfileRate=1).
-func biggestAllocSite() (string, int64) {
+func vmSize() uint64 {
+	b, err := os.ReadFile("/proc/self/status")
+	if err != nil {
+		return 0
+	}
+	for _, l := range strings.Split(string(b), "\n") {
+		if strings.HasPrefix(l, "VmSize:") {
+			f := strings.Fields(l)
+			if len(f) >= 2 {
+				v, _ := strconv.ParseUint(f[1], 10, 64)
+				return v << 10
+			}
+		}
+	}
+	return 0
+}
+
+type stackKey [32]uintptr
+
+func memSnapshot() map[stackKey]int64 {
+	runtime.GC()
 	runtime.GC()
 	n, _ := runtime.MemProfile(nil, true)
-	recs := make([]runtime.MemProfileRecord, n+64)
+	recs := make([]runtime.MemProfileRecord, n+128)
 	n, ok := runtime.MemProfile(recs, true)
+	out := map[stackKey]int64{}
 	if !ok {
-		return "?", 0
+		return out
 	}
-	var best *runtime.MemProfileRecord
 	for i := 0; i < n; i++ {
-		if best == nil || recs[i].AllocBytes > best.AllocBytes {
-			best = &recs[i]
+		out[stackKey(recs[i].Stack0)] += recs[i].AllocBytes
+	}
+	return out
+}
+
+// attributeAlloc re-runs one input between two memory-profile snapshots and returns the measured allocation
+// and the innermost Acra frame of the heaviest allocating stack.
+func attributeAlloc(t *target, in []byte) (uint64, string) {
+	old := runtime.MemProfileRate
+	runtime.MemProfileRate = 4096
+	before := memSnapshot()
+	res := runOne(t, in)
+	after := memSnapshot()
+	runtime.MemProfileRate = old
+	var best stackKey
+	var bestBytes int64 = -1
+	for k, v := range after {
+		if d := v - before[k]; d > bestBytes {
+			best, bestBytes = k, d
 		}
 	}
-	if best == nil {
-		return "?", 0
-	}
-	frames := runtime.CallersFrames(best.Stack())
 	site := "?"
-	for {
-		fr, more := frames.Next()
-		if strings.HasPrefix(fr.Function, acraPrefix) {
-			site = trimFn(fr.Function)
-			break
+	if bestBytes > 0 {
+		n := 0
+		for n < len(best) && best[n] != 0 {
+			n++
 		}
-		if !more {
-			break
+		frames := runtime.CallersFrames(best[:n])
+		for {
+			fr, more := frames.Next()
+			if strings.HasPrefix(fr.Function, acraPrefix) {
+				site = trimFn(fr.Function)
+				break
+			}
+			if !more {
+				break
+			}
 		}
 	}
-	return site, best.AllocBytes
+	return res.alloc, site
 }
